@@ -88,6 +88,9 @@ structure Cfg where
   /-- notifyNow wraps its own storage errors in retry.Unrecoverable, so one of them ends a running retry loop
       (the code before the repair); false: they are returned as they are and the loop goes on -/
   storageFaultEndsLoop : Bool
+  /-- `State.WritePayload` runs its AfterCommit notification only when this call saved the event
+      (`payloadWritten`); false: it notifies after every commit, also when the payload event had been saved before -/
+  notifyGuarded : Bool := true
 
 /-- a running `retry.Do` goroutine -/
 structure Task where
@@ -268,7 +271,9 @@ def addTx (c : Cfg) (σ : St) (a : AddArgs) : St × Status :=
 def writePayload (c : Cfg) (σ : St) (ref : Nat) (commitFail : Bool) : St × Status :=
   if ref ∉ σ.dag then (σ, .errNotFound)
   else if commitFail then (σ, .errCommit)   -- also: a storage fault on one subscriber's shelf (saveEvent returns the error)
-  else if c.skipPresent = true ∧ ref ∈ σ.evented then (σ, .skipped)
+  else if c.skipPresent = true ∧ ref ∈ σ.evented then
+    -- nothing is saved; AfterCommit: `if payloadWritten { s.notify(event) }`
+    (if c.notifyGuarded then σ else { σ with pending := σ.pending ++ [(ref, EvType.payload)] }, .skipped)
   else
     let σ1 := saveEvent c { σ with payloads := c.phash ref :: σ.payloads, evented := ref :: σ.evented,
                                    admitted := (ref, .payload) :: σ.admitted } (ref, .payload)
